@@ -1,7 +1,7 @@
 import Utcp.Lemmas.Shrinks
 import Utcp.Lemmas.Keeps
 import Utcp.Handshake
-import Utcp.Props.C03
+import Utcp.Lemmas.Partial
 import Utcp.Lemmas.RecvAdds
 /-!
 # C09 — arbitrary datagrams never crash, corrupt memory or hang an endpoint
